@@ -863,20 +863,20 @@ class OverlayStore(Store):
                 return self.fallback.get_metadata(key)
         raise KeyNotFoundStoreException(key=key, store=self)
 
+    def _restore(self, key):
+        "Forget that the key and the directories above it were removed (they are being written again)."
+        while key not in (None, ""):
+            self.removed.discard(key)
+            key = parent_key(key)
+
     def store(self, key, data, metadata):
-        try:
-            self.removed.remove(key)
-        except KeyError:
-            pass
+        self._restore(key)
         self.overlay.store(key, data, metadata)
         self.on_data_changed(key)
         self.on_metadata_changed(key)
 
     def store_metadata(self, key, metadata):
-        try:
-            self.removed.remove(key)
-        except KeyError:
-            pass
+        self._restore(key)
         self.overlay.store_metadata(key, metadata)
         self.on_metadata_changed(key)
 
@@ -935,8 +935,7 @@ class OverlayStore(Store):
         return [x for x in sorted(d) if join_key(key, x) not in self.removed]
 
     def makedir(self, key):
-        if key in self.removed:
-            self.removed.remove(key)
+        self._restore(key)
         self.overlay.makedir(key)
         self.on_data_changed(key)
         self.on_metadata_changed(key)
